@@ -4003,7 +4003,7 @@ var loopsFromOne = map[string]string{
 func init() {
 	register(&Rule{
 		ID:    "C20.fullrange",
-		Props: []string{"C20", "C03", "C09", "C01", "C16", "C17"},
+		Props: []string{"C20", "C03", "C09", "C01", "C16", "C17", "C14"},
 		Doc:   "loops over the elements of a geometry start at the first element: every counting loop (i := c; …; i++) in geom, rtree and carto starts at 0 (a `for range` at its hidden -1), except the reviewed loops that start at 1 for a stated reason (they pair element i with i-1, or treat element 0 before the loop) — and those start at exactly 1. A loop that quietly starts at 1 (or 2) skips the first point, segment, ring or member: the verdict of a validation, an intersection test or a conversion then ignores it",
 		Floor: 60,
 		Run:   runC20FullRange,
